@@ -167,7 +167,11 @@ def c06_post(merged, tier):
         if k / N > 0.005 and tail < 1e-5:
             # the signature carries the band of the observed rate, so that the recorded finding (0.5%..1.2% on the
             # unchanged tree, see known_findings.json) does not hide a larger regression
-            band = "upto1.2pct" if k / N <= 0.012 else "above1.2pct"
+            # (the recorded finding is a rate of 0.7-0.8 %; "above" is decided statistically, not by the point
+            # estimate: at N = 2400 the count fluctuates by +-4.3 around 18, and 29 of 2400 = 1.2 % turned up at
+            # seed 21 of a 25-seed sweep of the unchanged tree.  The band is "above" when the count is incompatible
+            # with a true rate of 0.9 % (tail < 1e-4), e.g. >= 41 of 2400 or >= 89 of 6400.)
+            band = "above1.2pct" if _binom_tail(N, k, 0.009) < 1e-4 else "upto1.2pct"
             out.append({"oracle": "solved_rate", "sig": f"solved_rate:{band}",
                         "detail": {"N": N, "not_solved": k, "rate": k / N, "tail_probability_under_0.5pct": tail,
                                    "not_solved_by_stratum": {n: c.get(f"stratum_{n}_not_solved", 0) for n in C06_CAL if n != "all"}}})
@@ -214,7 +218,7 @@ PLAN["C06"] = {
     "assumptions": SOLVE_ASSUME + ["the claim is about family G as implemented in vkit::gen / c06::family_g, nothing wider", "envelope constants recorded in plan.py with their calibration run"],
     "min_nontrivial": 300,
     "post": c06_post,
-    "runs": runs([dict(MON16, budget=200, scale=5.0)], [dict(MON16, budget=1200)]),
+    "runs": runs([dict(MON16, budget=300, scale=16.0)], [dict(MON16, budget=1200, scale=4.0)]),
 }
 
 CONE_ASSUME = BASE_ASSUME + PSD_ASSUME + ["cone objects are driven through the `verif` re-exports of the crate's own cone types and traits"]
